@@ -1,6 +1,7 @@
 //! Scenario format and its interpreter: maps every operation of the spec's client alphabet to
 //! the public API call of the real crate and records what happened.
-use crate::actors::{ActorScripts, Bc, Bc2, CMsg, Desc, Effect, H, Reply, SMsg, WORLD};
+use crate::actors::{ActorScripts, Bc, Bc2, CMsg, Desc, Effect, H, Reply, SMsg, Tp, WORLD};
+use hannibal::Broker;
 use crate::exec::{Decision, Exec, Kind, YieldFut, ev, take_log};
 use futures::future::LocalBoxFuture;
 use hannibal::{
@@ -87,6 +88,8 @@ pub struct Op {
     pub ty: String,
     #[serde(default = "none_s")]
     pub nh2: String,
+    #[serde(default = "none_s")]
+    pub h2: String,
     /// builder entry point variant (not part of the spec's record)
     #[serde(default, skip_serializing)]
     pub entry: String,
@@ -139,8 +142,28 @@ pub trait AddrLike {
     fn into_sender_unit(self: Box<Self>) -> Sender<()>;
     fn into_sender_bc(self: Box<Self>) -> Sender<Bc>;
     fn into_sender_bc2(self: Box<Self>) -> Sender<Bc2>;
+    /// weak sender for topic T (subscriber side)
+    fn weak_topic1(&self) -> WeakSender<Tp<1>> {
+        panic!("harness: unsupported on this handle")
+    }
+    fn weak_topic2(&self) -> WeakSender<Tp<2>> {
+        panic!("harness: unsupported on this handle")
+    }
+    /// broker side: Addr<Broker<T>>::publish / subscribe / unsubscribe
+    fn bpublish(&self, _m: crate::actors::MsgId) -> LocalBoxFuture<'_, HResult<()>> {
+        panic!("harness: not a broker handle")
+    }
+    fn bsubscribe<'a>(&'a self, _sub: &'a dyn AddrLike, _unsub: bool) -> LocalBoxFuture<'a, HResult<()>> {
+        panic!("harness: not a broker handle")
+    }
 }
 impl<const K: usize> AddrLike for Addr<H<K>> {
+    fn weak_topic1(&self) -> WeakSender<Tp<1>> {
+        Addr::weak_sender(self)
+    }
+    fn weak_topic2(&self) -> WeakSender<Tp<2>> {
+        Addr::weak_sender(self)
+    }
     fn register(self: Box<Self>) -> LocalBoxFuture<'static, HResult<(Box<dyn AddrLike>, Option<Box<dyn AddrLike>>)>> {
         Box::pin(async move {
             let (me, old) = Addr::register(*self).await?;
@@ -211,6 +234,49 @@ impl<const K: usize> AddrLike for Addr<H<K>> {
         self.__verif_id()
     }
 }
+
+macro_rules! unsupported {
+    () => {
+        panic!("harness: unsupported on a broker handle")
+    };
+}
+macro_rules! broker_addr {
+    ($T:literal, $weak:ident) => {
+        impl AddrLike for Addr<Broker<Tp<$T>>> {
+            fn send(&self, _m: SMsg) -> LocalBoxFuture<'_, HResult<()>> { unsupported!() }
+            fn call(&self, _m: CMsg) -> LocalBoxFuture<'_, HResult<Reply>> { unsupported!() }
+            fn ping(&self) -> LocalBoxFuture<'_, HResult<()>> { Box::pin(Addr::ping(self)) }
+            fn stop(&mut self) -> HResult<()> { Addr::stop(self) }
+            fn restart(&mut self) -> HResult<()> { unsupported!() }
+            fn halt(self: Box<Self>) -> LocalBoxFuture<'static, HResult<()>> { Box::pin(Addr::halt(*self)) }
+            fn wait(self: Box<Self>) -> LocalBoxFuture<'static, HResult<()>> { Box::pin(*self) }
+            fn wait_ref(&mut self) -> LocalBoxFuture<'_, HResult<()>> { Box::pin(async move { (&mut *self).await }) }
+            fn stopped(&self) -> bool { Addr::stopped(self) }
+            fn running(&self) -> bool { Addr::running(self) }
+            fn clone_box(&self) -> Box<dyn AddrLike> { Box::new(self.clone()) }
+            fn downgrade(&self) -> Box<dyn WAddrLike> { unsupported!() }
+            fn sender(&self) -> Sender<SMsg> { unsupported!() }
+            fn caller(&self) -> Caller<CMsg> { unsupported!() }
+            fn weak_sender(&self) -> WeakSender<SMsg> { unsupported!() }
+            fn weak_caller(&self) -> WeakCaller<CMsg> { unsupported!() }
+            fn aid(&self) -> u64 { self.__verif_id() }
+            fn register(self: Box<Self>) -> LocalBoxFuture<'static, HResult<(Box<dyn AddrLike>, Option<Box<dyn AddrLike>>)>> { unsupported!() }
+            fn replace(self: Box<Self>) -> LocalBoxFuture<'static, Option<Box<dyn AddrLike>>> { unsupported!() }
+            fn into_sender_unit(self: Box<Self>) -> Sender<()> { unsupported!() }
+            fn into_sender_bc(self: Box<Self>) -> Sender<Bc> { unsupported!() }
+            fn into_sender_bc2(self: Box<Self>) -> Sender<Bc2> { unsupported!() }
+            fn bpublish(&self, m: crate::actors::MsgId) -> LocalBoxFuture<'_, HResult<()>> {
+                Box::pin(self.publish(Tp::<$T>(m)))
+            }
+            fn bsubscribe<'a>(&'a self, sub: &'a dyn AddrLike, unsub: bool) -> LocalBoxFuture<'a, HResult<()>> {
+                let w = sub.$weak();
+                if unsub { Box::pin(self.unsubscribe(w)) } else { Box::pin(self.subscribe(w)) }
+            }
+        }
+    };
+}
+broker_addr!(1, weak_topic1);
+broker_addr!(2, weak_topic2);
 
 pub trait WAddrLike {
     fn upgrade(&self) -> Option<Box<dyn AddrLike>>;
@@ -483,7 +549,9 @@ fn spawn_actor_k<const K: usize>(c: &str, o: &Op) -> Res {
         }
     };
     let aid = hv.aid();
-    TAB.with(|t| t.borrow_mut().names.insert(aid, o.a.clone()));
+    if actor_of(aid) != o.a {
+        ev(json!({"ev": "harness_error", "task": "env", "what": format!("context id {aid} of {} was predicted for {}", o.a, actor_of(aid))}));
+    }
     put_h(&o.nh, hv);
     let _ = c;
     r("ok", o.a.clone())
@@ -673,7 +741,61 @@ async fn run_op(c: &str, n: i64, o: &Op) -> Res {
                 None => r("none", a0),
             }
         }
+        "publish" => {
+            let m = (c.to_string(), n);
+            let x = match o.ty.as_str() {
+                "1" => Broker::publish(Tp::<1>(m)).await,
+                "2" => Broker::publish(Tp::<2>(m)).await,
+                t => panic!("harness: topic {t}"),
+            };
+            let name = match o.ty.as_str() {
+                "1" => Broker::<Tp<1>>::try_from_registry().map(|a| actor_of(a.__verif_id())),
+                _ => Broker::<Tp<2>>::try_from_registry().map(|a| actor_of(a.__verif_id())),
+            };
+            r(okerr(&x), name.unwrap_or_else(|| "*".into()))
+        }
+        "bpublish" => {
+            let h = take_h(&o.h);
+            let a = actor_of(h.aid());
+            let x = match &h {
+                Addr(x) => x.bpublish((c.to_string(), n)).await,
+                _ => panic!("harness: bpublish on wrong kind"),
+            };
+            put_h(&o.h, h);
+            r(okerr(&x), a)
+        }
+        "bsubscribe" | "bunsubscribe" => {
+            let h = take_h(&o.h);
+            let h2 = take_h(&o.h2);
+            let a = actor_of(h.aid());
+            let x = {
+                let sub: &dyn AddrLike = match &h2 {
+                    Addr(y) => y.as_ref(),
+                    Owning(y) => y.addr(),
+                    _ => panic!("harness: subscriber handle of wrong kind"),
+                };
+                match &h {
+                    Addr(x) => x.bsubscribe(sub, o.op == "bunsubscribe").await,
+                    _ => panic!("harness: bsubscribe on wrong kind"),
+                }
+            };
+            put_h(&o.h, h);
+            put_h(&o.h2, h2);
+            r(okerr(&x), a)
+        }
         "from_registry" | "setup" | "unregister" | "try_from_registry" | "already_running" => match o.ty.as_str() {
+            "B1" => {
+                let a = Broker::<Tp<1>>::from_registry().await;
+                let name = actor_of(a.__verif_id());
+                put_h(&o.nh, HandleV::Addr(Box::new(a)));
+                r("ok", name)
+            }
+            "B2" => {
+                let a = Broker::<Tp<2>>::from_registry().await;
+                let name = actor_of(a.__verif_id());
+                put_h(&o.nh, HandleV::Addr(Box::new(a)));
+                r("ok", name)
+            }
             "0" => registry_op::<0>(o).await,
             "1" => registry_op::<1>(o).await,
             "2" => registry_op::<2>(o).await,
